@@ -1308,6 +1308,104 @@ theorem locate_latest_common_block_exact {store : Store} (ok : StoreOk store) {g
       exact absurd hxm (hclosed c' hdx (isAnc_stored ok hs hc') hmc this)
     · exact htmax c' (isAnc_of_le hc' hdxa (by omega)) hmc
 
+theorem walkId_anc {store : Store} (ok : StoreOk store) {start : Hdr} (hs : store start.id = some start)
+    {i x : Nat} (h : walkId store start i = some x) :
+    ∃ t, store x = some t ∧ IsAnc store t start ∧ t.number = i := by
+  unfold walkId at h
+  split at h
+  · rename_i hi
+    obtain ⟨t, ht, htn, hts⟩ := walk_ok ok (start.number - i) start hs (by omega)
+    rw [ht] at h
+    have hx : t.id = x := by simpa using h
+    subst hx
+    exact ⟨t, hts, ⟨by omega, by have : start.number - t.number = start.number - i := by omega
+                                 rw [this]; exact ht⟩, by omega⟩
+  · cases h
+
+/-- What `get_locator` returns for a known start header (any tree, any main chain): every entry is an
+ancestor of the start, the first entry is the start itself, the last entry is genesis — the three
+hypotheses of the `locate_latest_common_block` theorems. -/
+theorem get_locator_props {store : Store} (ok : StoreOk store) {scan : Nat → Hdr → Option Hdr}
+    (sok : ScanOk store scan) {g : Hdr} (hroot : Rooted store g) {start : Hdr}
+    (hs : store start.id = some start) {L : List Nat}
+    (hL : getLocator (ancOf store scan) g.id start.number start.id = some L) :
+    (∀ e ∈ L, ∃ he, store e = some he ∧ IsAnc store he start) ∧ L[0]? = some start.id ∧
+      L.getLast? = some g.id := by
+  rw [locator_eq_walk ok sok hs] at hL
+  unfold getLocator at hL
+  obtain ⟨⟨l, f⟩, hloop, hmap⟩ := Option.map_eq_some_iff.mp hL
+  simp only at hmap
+  -- genesis is an ancestor of the start
+  obtain ⟨t, ht, htn, hts⟩ := walk_ok ok start.number start hs (Nat.le_refl _)
+  have hg := hroot start hs
+  rw [hg] at ht
+  cases ht
+  have hganc : IsAnc store g start := ⟨by omega, by
+    have : start.number - g.number = start.number := by omega
+    rw [this]; exact hg⟩
+  obtain ⟨_, hmem⟩ := locatorLoop_entries (walkId store start) _ _ _ _ _ _ _ hloop
+  obtain ⟨hh, rest, hA, hl⟩ := locatorLoop_head (walkId store start) _ _ _ _ _ _ _ hloop
+  have hhead : hh = start.id := by
+    have : walkId store start start.number = some start.id := by simp [walkId, walk]
+    rw [this] at hA; exact (Option.some.inj hA).symm
+  have hlmem : ∀ e ∈ l, ∃ he, store e = some he ∧ IsAnc store he start := by
+    intro e he
+    rcases hmem e he with h | ⟨i, _, hi⟩
+    · cases h
+    · obtain ⟨t, h1, h2, _⟩ := walkId_anc ok hs hi
+      exact ⟨t, h1, h2⟩
+  have hl0 : l[0]? = some start.id := by rw [hl, hhead]; simp
+  cases f with
+  | true =>
+    simp only [if_true] at hmap
+    subst hmap
+    refine ⟨?_, ?_, by simp⟩
+    · intro e he
+      rcases List.mem_append.mp he with h | h
+      · exact hlmem e h
+      · have : e = g.id := by simpa using h
+        subst this
+        exact ⟨g, hts, hganc⟩
+    · rw [hl, hhead]; simp
+  | false =>
+    simp only [Bool.false_eq_true, if_false] at hmap
+    subst hmap
+    refine ⟨hlmem, hl0, ?_⟩
+    obtain ⟨x, hx0, hlast⟩ := locatorLoop_last (walkId store start) _ _ _ _ _ _ (Nat.le_refl 1)
+      (Nat.lt_succ_self _) hloop
+    have : walkId store start 0 = some g.id := by simp [walkId, hg]
+    rw [this] at hx0
+    rw [hlast, ← Option.some.inj hx0]
+
+/-- Round trip, soundness: whatever start header a peer takes its locator from and whatever our main
+chain is, `locate_latest_common_block(get_locator(start))` exists and is the number of a block that is on
+our main chain AND an ancestor of the peer's start header. -/
+theorem locator_round_trip_common {store : Store} (ok : StoreOk store) {scan : Nat → Hdr → Option Hdr}
+    (sok : ScanOk store scan) {g : Hdr} {numOnMain : Nat → Option Nat} {blk : Nat → Option Hdr}
+    (v : ViewOk store g numOnMain blk) {start : Hdr} (hs : store start.id = some start) {L : List Nat}
+    (hL : getLocator (ancOf store scan) g.id start.number start.id = some L) :
+    ∃ n c, locateLatestCommonBlock numOnMain blk g.id L = some n ∧
+      numOnMain c.id = some n ∧ IsAnc store c start := by
+  obtain ⟨h1, _, h3⟩ := get_locator_props ok sok v.rooted hs hL
+  exact locate_latest_common_block_common ok v L h1 h3
+
+/-- Round trip, exactness: if moreover the start header's branch is stored with us and our main chain is
+parent-closed, the located block is the TRUE latest common block (no main-chain ancestor of the start
+is higher), provided the first locator entry on our main chain is the start itself or is not genesis. -/
+theorem locator_round_trip_exact {store : Store} (ok : StoreOk store) {scan : Nat → Hdr → Option Hdr}
+    (sok : ScanOk store scan) {g : Hdr} {numOnMain : Nat → Option Nat} {blk : Nat → Option Hdr}
+    (v : ViewOk store g numOnMain blk) {start : Hdr} (hs : store start.id = some start)
+    (hstored : ∀ x, IsAnc store x start → blk x.id = some x)
+    (hnum : ∀ x n, store x.id = some x → numOnMain x.id = some n → n = x.number)
+    (hclosed : ∀ x c, store x.id = some x → numOnMain x.id ≠ none → IsAnc store c x → numOnMain c.id ≠ none)
+    {L : List Nat} (hL : getLocator (ancOf store scan) g.id start.number start.id = some L)
+    {index n0 : Nat} (hf : firstOnMain numOnMain L 0 = some (index, n0)) (hres : index = 0 ∨ n0 ≠ 0) :
+    ∃ n c, locateLatestCommonBlock numOnMain blk g.id L = some n ∧
+      numOnMain c.id = some n ∧ IsAnc store c start ∧
+      ∀ c', IsAnc store c' start → numOnMain c'.id ≠ none → c'.number ≤ n := by
+  obtain ⟨h1, h2, h3⟩ := get_locator_props ok sok v.rooted hs hL
+  exact locate_latest_common_block_exact ok v hs hstored hnum hclosed L h1 h2 h3 hf hres
+
 /-- non-vacuity, on `exStore` (main chain 0..20, stored fork 21,22,23 = numbers 11',12',13' off block 10):
 the latest common ancestor of the fork tip and the main tip is block 10, from either side; the fork tip's
 locator is located at 10 by a node whose main chain is 0..20; and the resolution limit: a main chain of
